@@ -240,6 +240,35 @@ def superseded_history(rng, kind):
     return ops
 
 
+def extreme_bound_history(rng, kind):
+    """The advertised maxima are computed for the lowest / highest settable ratio. Run the FIRST chunk after
+    construction and after reset at exactly that bound (original / max resp. original * max as the caller's f64
+    arithmetic gives it), with a chunk size for which chunk / ratio (fixed output) resp. chunk * ratio (fixed
+    input) is a whole number in exact arithmetic: a bound without slack fails there (seeded change C04n)."""
+    orig = rng.choice([Fraction(7, 10), Fraction(2, 3), Fraction(441, 480), Fraction(17, 10), Fraction(33, 10),
+                       Fraction(1), Fraction(3, 7), Fraction(160, 147), Fraction(1, 2), Fraction(5, 4)])
+    mr = rng.choice([Fraction(11, 10), Fraction(13, 10), Fraction(3, 2), Fraction(5, 2), Fraction(3), Fraction(10)])
+    out = kind.endswith("Out")
+    bound = orig / mr if out else orig * mr               # the ratio with the largest input / output need
+    unit = bound.numerator if out else bound.denominator
+    k = max(1, rng.randrange(1, max(2, 1024 // unit + 1)))
+    chunk = min(4096, unit * k)
+    over = {"chunk": chunk, "ch": 1, "r": rj(orig), "maxrel": rj(mr)}
+    if kind.startswith("Sinc"):
+        over.update({"L": rng.choice([8, 64, 128, 256]), "F": rng.choice([16, 128, 2]),
+                     "interp": rng.choice(INTERPS)})
+        if over["interp"] in ("Cubic", "Quadratic") and over["F"] == 1:
+            over["F"] = 2
+    n = new_op(rng, kind, **over)
+    n["chunk"] = chunk
+    cls = "lo" if out else "hi"
+    setb = {"op": "set_ratio", "id": 0, "x": {"cls": cls}, "ramp": False, "rel": False}
+    ops = [n, {"op": "alloc", "id": 0}, dict(setb), {"op": "getters", "id": 0}]
+    ops += [{"op": "process", "id": 0, "via": rng.choice(["into", "alloc"])} for _ in range(3)]
+    ops += [{"op": "reset", "id": 0}, dict(setb), {"op": "process", "id": 0}, {"op": "process", "id": 0}]
+    return ops
+
+
 def long_history(rng, kind):
     """Hundreds of calls at a constant configuration with small chunks: whatever accumulates, wraps or depends
     on a slowly drifting phase / on one residue of a counter (an FFT resampler's parked frames run through every
@@ -309,16 +338,33 @@ def integer_product_history(rng, kind):
     else:
         r, chunk = Fraction(7, 10), 170
     over = {"chunk": chunk, "ch": 1}
-    setfirst = rng.random() < 0.3
-    if setfirst:
+    u = rng.random()
+    setfirst = u < 0.55
+    extreme = None
+    if u < 0.25:
+        # the boundary ratio is the LOWEST or HIGHEST ratio the resampler can be set to (the advertised maxima
+        # are computed for exactly that ratio - seeded change C04n)
+        mr = rng.choice([Fraction(3, 2), Fraction(11, 10), Fraction(2), Fraction(3), Fraction(13, 10), Fraction(5, 2)])
+        lowest = rng.random() < 0.6
+        orig = r * mr if lowest else r / mr
+        if max(orig.numerator, orig.denominator) < 1024:
+            extreme = "lo" if lowest else "hi"
+            over.update({"r": rj(orig), "maxrel": rj(mr)})
+    if extreme is None and setfirst:
         orig = rng.choice([Fraction(1), r * 2, r / 2, Fraction(3, 2)])
         over.update({"r": rj(orig), "maxrel": rj(Fraction(4))})
-    else:
+    elif extreme is None:
         over.update({"r": rj(r), "maxrel": rj(rng.choice([Fraction(1), Fraction(2)]))})
     if kind.startswith("Sinc"):
         over.update({"L": rng.choice([8, 16, 64]), "F": rng.choice([2, 16, 128])})
     h = valid_history(rng, kind, rng.randrange(3, 8), allow=("via",), **over)
-    if setfirst and 1 <= r.numerator < 1024 and r.denominator < 1024 and Fraction(1, 4) <= r / frac_of(h[0]["r"]) <= 4:
+    if extreme is not None:
+        # the bound exactly as a caller computes it: original / max resp. original * max in f64
+        h.insert(1, {"op": "set_ratio", "id": 0, "x": {"cls": extreme}, "ramp": False, "rel": False})
+        if rng.random() < 0.5:
+            h += [{"op": "reset", "id": 0}, {"op": "set_ratio", "id": 0, "x": {"cls": extreme}, "ramp": False, "rel": False},
+                  {"op": "process", "id": 0}, {"op": "process", "id": 0}]
+    elif setfirst and 1 <= r.numerator < 1024 and r.denominator < 1024 and Fraction(1, 4) <= r / frac_of(h[0]["r"]) <= 4:
         h.insert(1, {"op": "set_ratio", "id": 0, "x": rj(r), "ramp": False, "rel": False})
     return h
 
